@@ -103,6 +103,13 @@ add('C23', "asyncsim", 'stateful two-task scenarios built around sleep/wake pair
     '300k scenarios per flavour: one task sleeps on a Rust-level event, another wakes it once or several times, before, while or after it sleeps, with cancellation of either task; oracle: wake of a sleeping task writes exactly one unit item that completes the pending wakeup read (the runtime asserts COMPLETED(1)); the wakeup read is never cancelled while joined, never left in flight when its end is dropped; the sleeper finishes its program.',
     "The canonical built-ins are provided by a mock host written from the component-model async definitions (native, 64-bit) through the verif hook in extern_wasm!; traps are recorded as violations. Two runtime flavours are run by every check: without `async-spawn` (the task's own waker reaches guest futures; evidence/<ID>-nospawn.json) and with all features. Scenarios run one at a time (the runtime has process-wide state). A process abort (panic inside an extern C callback) is caught by a SIGABRT handler that saves the scenario and reports the violation.")
 
+add('C05', "genrun", 'generated proxy worlds x random values x Rust option variants; native execution against an independent reference canonical ABI (refabi, P = 8); differential oracle on every value in both directions',
+    '42 worlds per quick run (700 thorough), 1..3 functions each, 3 random value sets per function, over all WIT value types nested to depth 3 (scalars, strings, lists, options, results, tuples, records, variants, enums, flags of 1..32 members, maps, fixed-length lists; more than 16 flat parameters and multi-value results included) x {default, borrowing, --std-feature, merge-equal, raw-strings, HashMap, borrowing+merge-equal}. The host lowers parameters into the export call, lifts them from the import call the guest makes, lowers the import result and lifts the export result; both must equal what was sent, the import must be called once with the canonical arity.',
+    "Native x86-64 execution (the generated Rust is pointer-width agnostic): one shared object per world, import declarations rewritten into calls of a host callback, exports reached through trampolines whose signatures come from the reference ABI. The guest side is a pure forwarder (export -> import of the same name), so the only code between the host's two observations is generated code. Anonymous option/result/tuple parameters are wrapped into one-field records (results are not); resources, futures and streams are out of these worlds.")
+add('C06', "genrun", 'same executions as C05 with a tracking allocator inside the guest object; heap-balance oracle per call',
+    'Same worlds, values and variants as C05. The guest object carries a tracking global allocator: after every export call and its post-return the set of live heap blocks must equal the set before the call (nothing leaked from parameters the host allocated with cabi_realloc, import results, lowered import arguments, or the returned value), and no block may be freed twice, with a foreign pointer or a wrong size.',
+    "Native x86-64 execution (the generated Rust is pointer-width agnostic): one shared object per world, import declarations rewritten into calls of a host callback, exports reached through trampolines whose signatures come from the reference ABI. The guest side is a pure forwarder (export -> import of the same name), so the only code between the host's two observations is generated code. Anonymous option/result/tuple parameters are wrapped into one-field records (results are not); resources, futures and streams are out of these worlds.")
+
 PENDING_REASON = "check not built yet in this session (planned in DESIGN.md §4); not claimed until it exists and passes its sensitivity runs"
 
 def main():
@@ -154,7 +161,7 @@ def main():
 NA = {}
 HOOK_COMMITS = ["b827c12", "a6f2383"]
 ENGINES = [
-    {"name": "genrun", "path": "harness/genrun", "serves_properties": ["C09", "C12", "C13", "C15", "C16", "C17", "C28", "C29", "C30", "C31", "C32", "C33"], "kind_free_text": "tape-driven constructive WIT world generator (harness/witgen) + in-process drivers for all eight generators with panic capture and output collection"},
+    {"name": "genrun", "path": "harness/genrun", "serves_properties": ["C05", "C06", "C09", "C12", "C13", "C15", "C16", "C17", "C28", "C29", "C30", "C31", "C32", "C33"], "kind_free_text": "tape-driven constructive WIT world generator (harness/witgen) + in-process drivers for all eight generators with panic capture and output collection"},
     {"name": "abisim", "path": "harness/abisim", "serves_properties": ["C01", "C02", "C03", "C04"], "kind_free_text": "recording wit_bindgen_core::abi::Bindgen + instruction interpreter + independent reference canonical ABI (harness/refabi), driven by proptest"},
     {"name": "asyncsim", "path": "harness/asyncsim", "serves_properties": ["C18", "C19", "C20", "C21", "C22", "C23"], "kind_free_text": "the real Rust async guest runtime executed natively (verif hook) against a mock component-model async host; guest programs + host schedules generated by proptest; second flavour harness/asyncsim-nospawn built from the same sources without async-spawn"},
     {"name": "rtpbt", "path": "harness/rtpbt", "serves_properties": ["C24"], "kind_free_text": "proptest histories against wit_bindgen::rt allocation entry points with a tracking global allocator"},
